@@ -20,6 +20,15 @@ INJECT = '*verif injected fault'
 SEPS = [';', ',', '~', '^', '|', '`']
 
 
+def _nested_efun(rng, level, st):
+    """an efun callback that catches an error raised inside a nested efun (mostly of the same kind), then goes on"""
+    st['catch'] += 1; st['leaf'] += 1
+    ef = rng.choice(('sort', 'sort', 'filter 2', 'map 2'))
+    ef2 = ef if rng.random() < 0.7 else rng.choice(('sort', 'filter 2', 'map 2'))
+    leaf = rng.choice(('bomb %d err' % st['leaf'], 'bomb %d typeerr' % st['leaf'], 'bomb %d throw' % st['leaf'], 'rec leaf%d' % st['leaf']))
+    return '%s catch %d %s %s%srec after%d' % (ef, st['catch'], ef2, leaf, SEPS[level + 1], st['leaf'])
+
+
 def _nest(rng, level, st):
     """one op (possibly containing a nested script) at separator level `level`"""
     if level >= 4 or rng.random() < 0.25:
@@ -34,12 +43,14 @@ def _nest(rng, level, st):
     sep = SEPS[level + 1]
     inner = sep.join(_nest(rng, level + 1, st) for _ in range(rng.randint(1, 2)))
     r = rng.random()
+    if r < 0.06 and level <= 1:
+        return _nested_efun(rng, level, st)
     if r < 0.2:
         st['catch'] += 1
         return 'catch %d %s' % (st['catch'], inner)
     if r < 0.32: return 'as %s %s' % (rng.choice(('a', 'b', 'c')), inner)
     if r < 0.4: return 'fp %s' % inner
-    if r < 0.47: return 'fpb %s' % inner if rng.random() < 0.6 else 'spread %s' % inner
+    if r < 0.47: return 'fpb %s' % inner if rng.random() < 0.5 else rng.choice(('spread %s', 'spread2 %s')) % inner
     if r < 0.55: return 'filter %d %s' % (rng.randint(1, 2), inner)
     if r < 0.62: return 'map %d %s' % (rng.randint(1, 2), inner)
     if r < 0.68: return 'sort %s' % inner
@@ -72,6 +83,7 @@ def gen(rng, tier, i):
                 cmd('sc %s %s %s' % (ob, hk, ','.join(_nest(rng, 1, st) for _ in range(rng.randint(1, 2)))))
     if kind == 'cmd':
         ops = [_nest(rng, 0, st) for _ in range(rng.randint(1, 3))]
+        if rng.random() < 0.3: ops.insert(rng.randint(0, len(ops)), _nested_efun(rng, 0, st))
         j = cmd(';'.join(ops))
     elif kind == 'edwrite':
         # the editor's write callback runs through safe_apply() with two arguments; the fault lands inside it
@@ -161,11 +173,23 @@ def check_base(plan, res):
         v.append(Violation(PROP, 'entry', 'driver-entry registers differ between cycles in a run: %s' % sorted(_entry_tuples(res)), PROP + '/entry/changes-' + _which(sorted(_entry_tuples(res)))))
     if _recs(res, 'CATCHBAD'):
         v.append(Violation(PROP, 'catch-frame', 'frame state differs after catch: ' + _recs(res, 'CATCHBAD')[0], PROP + '/catch/frame-not-restored'))
+    v += _efun_results(res)
     pr = _recs(res, 'PROBE')
     half = len(pr) // 2
     if pr[:half] != pr[half:]:
         v.append(Violation(PROP, 'probe', 'probe evaluation differs before/after a natural error: %s vs %s' % (pr[:half], pr[half:]), PROP + '/probe/differs'))
     return v
+
+
+def _efun_results(res):
+    """an efun that completed returns what it always returns: its callbacks' scripts (and errors caught inside them) do not matter"""
+    out = []
+    for r in _recs(res, 'EFRES'):
+        w = r.split(' ', 2)
+        if len(w) > 2 and w[2] != 'ok':
+            out.append(Violation(PROP, 'efun-result', '%s completed after an error was caught inside its callback, but returned %s' % (w[1], w[2][:80]), PROP + '/efun-state/%s-result-wrong' % w[1]))
+            break
+    return out
 
 
 def _which(tuples):
@@ -194,6 +218,7 @@ def check_point(plan, res, info):
                            PROP + '/entry/not-restored-' + _which(sorted(base)[:1] + extra)))
     if _recs(res, 'CATCHBAD'):
         v.append(Violation(PROP, 'catch-frame', 'frame state differs after catch: ' + _recs(res, 'CATCHBAD')[0], PROP + '/catch/frame-not-restored'))
+    v += _efun_results(res)
     # catch yields the raised value.  Before the fault fires the run is the fault-free run, so its CATCH records are a
     # prefix of the fault-free ones; the catch that receives the injected error must yield exactly its message.  What the
     # command does after a caught fault is not constrained (side effects made before the error legitimately persist).
